@@ -18,7 +18,7 @@ is the conjunction of match_accessor and match_access_desc; (f) group accessors:
 constant true only when the mode is not Group, otherwise the membership lookup of the accessor's own fabric and group.
 """
 CLAUSES = ['a: fabric separation', 'b: implicit PASE grant is exactly that', 'c: privilege lattice constants and mask test',
-           'd: CAT id equal, version greater-or-equal', 'e: single evaluation chain', 'f: group accessors reach member endpoints only',
+           'd: CAT id equal, version greater-or-equal; every subject slot is scanned', 'e: single evaluation chain', 'f: group accessors reach member endpoints only',
            'g: identifiers are compared at full width (no truncating cast in the matching code)']
 NOT_DECIDED = ['equality with a reference decision over all entries x accessors x targets (value-level)', 'target/device-type matching details beyond comparison width']
 MIN_OBLIGATIONS = {'q': 25, 'd': 20, 'r': 25}
